@@ -7,6 +7,7 @@
 import PydapModel.Path
 import Proofs.Path
 import Proofs.PathServe
+import Proofs.AppSrc
 namespace Pydap.C16
 open Pydap Pydap.Path
 
@@ -190,5 +191,32 @@ example : contained ["r".toList] ["r".toList, "x".toList] = true ∧ contained [
 example : sortNames ["f10".toList, "f9".toList, "a".toList, "F".toList] =
     ["F".toList, "a".toList, "f9".toList, "f10".toList] := by decide
 example : target ["r".toList] "/../../..//./r/x".toList = ["r".toList, "x".toList] := by decide
+
+/-! ### the tie by translation: the *source text* of `DapServer.__call__` takes the model's routing decision
+
+`Pydap.Gen.src_dapserver_call` (PydapModel/Generated/AppSrc.lean) is the MiniPy syntax tree of everything after
+`path = …` in `DapServer.__call__`, regenerated from `wsgi/app.py` on every run by `harness/py2lean.py`.  Early
+returns are read as `if … else …`; `return e` is `@ret = "<source text of e>"` (`routeTag` lists the seven texts);
+`os.path.exists/isdir/isfile/basename` on the request path are inputs (`routeEnv`), `os.path.join(self.path, "")` and
+`startswith`, `!=`, `== "catalog.xml"` are interpreted. -/
+
+open MiniPy in
+/-- for every handler table, file system, root and resolved request path, the interpreted source returns the
+    expression that the model's outcome stands for: the containment test is `contained`, and the order
+    forbidden → existing directory / file → `catalog.xml` of an existing directory → DAP suffix → not found
+    is that of `serveAt` -/
+theorem C16_source_routing (exts : List Seg) (fs : FS) (root p : Segs) :
+    runItem (routeEnv fs root p) Gen.src_dapserver_call "@ret" = .ok (.str (routeTag (serveAt exts fs root p).2)) :=
+  src_dapserver_call_eq exts fs root p
+
+-- non-vacuity: the sibling `/r2` of the root `/r` is refused by the interpreted source, a contained file is served
+open MiniPy in
+example : runItem (routeEnv exFs ["r".toList] ["r2".toList]) Gen.src_dapserver_call "@ret"
+    = .ok (.str (routeTag .forbidden)) := by
+  rfl
+open MiniPy in
+example : runItem (routeEnv exFs ["r".toList] ["r".toList, "a.csv".toList]) Gen.src_dapserver_call "@ret"
+    = .ok (.str (routeTag (.file []))) := by
+  rfl
 
 end Pydap.C16
